@@ -72,7 +72,7 @@ impl rand::RngCore for ScriptedRng {
 
 thread_local! {
     static CACHE: RefCell<HashMap<String, Rc<ClusterState>>> = RefCell::new(HashMap::new());
-    static HCACHE: RefCell<HashMap<String, (Rc<ClusterState>, String)>> = RefCell::new(HashMap::new());
+    static HCACHE: RefCell<HashMap<String, (Rc<ClusterState>, String, String)>> = RefCell::new(HashMap::new());
 }
 
 pub(crate) fn cluster(topo_s: &str, peers: &[PeerSpec], pre_s: &str, pre: &[Option<Strat>]) -> Rc<ClusterState> {
@@ -164,7 +164,7 @@ fn ring_dc_order(peers: &[PeerSpec]) -> Vec<u32> {
 }
 
 /// The replicas the placement rules give, as an ordered list (iteration order of the replica set).
-fn expected(peers: &[PeerSpec], strat: &Strat, dc: Option<u32>, tok: i64) -> Vec<u64> {
+pub(crate) fn expected(peers: &[PeerSpec], strat: &Strat, dc: Option<u32>, tok: i64) -> Vec<u64> {
     let dc_of = |id: u64| peers.iter().find(|p| p.id == id).and_then(|p| p.dc);
     match strat {
         Strat::Simple(_) | Strat::Local | Strat::Other => {
@@ -400,7 +400,7 @@ fn run_history(w: &[&str], ctx: &mut Ctx) -> String {
         let prev = state.clone();
         // history states are cached together with the arms observed when they were built (the arms compare the new
         // node objects with those of the very state the refresh started from)
-        let (cs, arms) = HCACHE.with(|c| {
+        let (cs, arms, pools) = HCACHE.with(|c| {
             let mut c = c.borrow_mut();
             if let Some(e) = c.get(&key) {
                 return e.clone();
@@ -422,12 +422,47 @@ fn run_history(w: &[&str], ctx: &mut Ctx) -> String {
                 _ => unreachable!(),
             });
             let arms = reuse_arms(prev.as_deref(), &cs, &peers);
-            c.insert(key.clone(), (cs.clone(), arms.clone()));
-            (cs, arms)
+            let pools = pool_presence(&cs, &peers);
+            // Oracle from the property of the host filter: a node has a connection pool iff the filter accepted it
+            // in the last refresh.  It applies when the enabled-ness `calculate_new_topology` saw on the previous
+            // nodes was the real one (`is_enabled()` = pool presence, as in production; the hooks override it).
+            let saw_enabled = |id: u64| match mode {
+                "r" | "t" => false, // the rejecting hooks clear the overrides first
+                _ => prev_peers.iter().find(|p| p.id == id).map(|p| !p.flags.contains('d')).unwrap_or(false),
+            };
+            let real = prev.as_deref().map(|p| enabledness_is_real(p, &saw_enabled)).unwrap_or(true);
+            if real {
+                for (p, has) in peers.iter().zip(pools.chars()) {
+                    let accepted = match mode {
+                        "R" | "T" => true,
+                        "F" | "G" => p.flags.contains('a'),
+                        _ => false,
+                    };
+                    if has != if accepted { '1' } else { '0' } {
+                        c.insert(key.clone(), (cs.clone(), arms.clone(), pools.clone()));
+                        return (cs, arms, format!("{}!{}", pools, p.id));
+                    }
+                }
+            }
+            c.insert(key.clone(), (cs.clone(), arms.clone(), pools.clone()));
+            (cs, arms, pools)
         });
+        let pools = match pools.split_once('!') {
+            Some((ps, id)) => {
+                ctx.fail(format!(
+                    "after step {} ({}): node {} {} a connection pool although the host filter {} it in this refresh (pools {})",
+                    i + 1, mode, id,
+                    if ps.chars().nth(peers.iter().position(|p| p.id.to_string() == id).unwrap_or(0)) == Some('1') { "has" } else { "has no" },
+                    if matches!(mode, "R" | "T") || (matches!(mode, "F" | "G") && peers.iter().any(|p| p.id.to_string() == id && p.flags.contains('a'))) { "accepted" } else { "rejected" },
+                    ps
+                ));
+                ps.to_owned()
+            }
+            None => pools,
+        };
         let label = format!("after step {} ({})", i + 1, mode);
         let obs = check_state(&cs, Some(&label), topo_s, &peers, &pre_s, &pre, tail[0], &strat, dc, tok, ctx);
-        lines.push(format!("{} arms={}", obs, arms));
+        lines.push(format!("{} arms={} pool={}", obs, arms, pools));
         state = Some(cs);
         prev_peers = peers;
     }
@@ -827,7 +862,7 @@ fn mutate(rng: &mut Rng, peers: &mut Vec<PeerSpec>, max_racks: u32, next_id: &mu
         }
         7 if rng.chance(1, 2) => {
             // enabled-ness (flag `d` = disabled): decides between the reuse arms and the new-node arms
-            peers[i].flags = if peers[i].flags.is_empty() { "d".into() } else { String::new() };
+            peers[i].flags = if peers[i].flags.contains('d') { peers[i].flags.replace('d', "") } else { format!("d{}", peers[i].flags) };
         }
         7 | 8 => {
             // address change: the node moves to another position of the peer list
@@ -869,8 +904,34 @@ fn rack_sensitive_nts(rng: &mut Rng, peers: &[PeerSpec]) -> Strat {
     Strat::Nts(v)
 }
 
+/// In about a quarter of the topologies two or three token-owning nodes share one address (flag `g<k>`): node identity
+/// is the host id - `unique()`, the unique-node counts and the ring-ordered view must keep such nodes apart.
+fn share_addresses(rng: &mut Rng, peers: &mut [PeerSpec]) {
+    if peers.len() < 2 || !rng.chance(1, 4) {
+        return;
+    }
+    for g in 0..rng.range(1, 2) {
+        for _ in 0..rng.range(2, 3) {
+            let i = rng.below(peers.len() as u64) as usize;
+            if addr_group(&peers[i]).is_none() {
+                peers[i].flags = format!("{}g{}", peers[i].flags, g);
+            }
+        }
+    }
+}
+
 fn emit_history(rng: &mut Rng, shape: TopoShape, emit: &mut dyn FnMut(String)) {
     let mut peers = gen_topology(rng, shape);
+    // production-like histories: enabled-ness always equals the real pool presence (built with every node rejected
+    // = disabled, then only per-peer-verdict refreshes in which a node is enabled iff accepted), so that the oracle
+    // "pool iff accepted in the last refresh" applies at every step
+    let prodlike = rng.chance(1, 3);
+    share_addresses(rng, &mut peers);
+    if prodlike {
+        for p in peers.iter_mut() {
+            p.flags = format!("d{}", p.flags);
+        }
+    }
     let mut next_id = 500u64;
     let n = rng.range(2, 5) as usize; // the build + 1..4 refreshes
     let mut pre: Vec<Strat> = (0..rng.range(0, 2)).map(|_| gen_strategy(rng, &peers)).collect();
@@ -881,15 +942,16 @@ fn emit_history(rng: &mut Rng, shape: TopoShape, emit: &mut dyn FnMut(String)) {
         for _ in 0..rng.range(1, 2) {
             mutate(rng, &mut peers, shape.max_racks as u32, &mut next_id);
         }
-        let filter_mode = rng.below(3); // 0 rejecting, 1 accepting, 2 per-peer verdicts
+        let filter_mode = if prodlike { 2 } else { rng.below(3) }; // 0 rejecting, 1 accepting, 2 per-peer verdicts
         let accepting = filter_mode == 1;
         if filter_mode == 2 {
             // verdicts per peer; a node is enabled afterwards iff it was accepted (now and then not: a pool-less
             // accepted node / a still-enabled rejected one)
             for p in peers.iter_mut() {
                 let acc = rng.chance(1, 2);
-                let en = if rng.chance(1, 8) { !acc } else { acc };
-                p.flags = format!("{}{}", if acc { "a" } else { "" }, if en { "" } else { "d" });
+                let en = if !prodlike && rng.chance(1, 8) { !acc } else { acc };
+                let grp = addr_group(p).map(|g| format!("g{}", g - 200)).unwrap_or_default();
+                p.flags = format!("{}{}{}", if acc { "a" } else { "" }, if en { "" } else { "d" }, grp);
             }
         }
         if rng.chance(1, 3) {
@@ -1046,7 +1108,8 @@ pub fn generate(rng: &mut Rng, tier: Tier, emit0: &mut dyn FnMut(String)) {
             2 => TopoShape { max_nodes: 8, max_dcs: 3, max_racks: 3, max_vnodes: 3, dups: 1 },
             _ => TopoShape { max_nodes: 12, max_dcs: 2, max_racks: 4, max_vnodes: 2, dups: 2 },
         };
-        let peers = gen_topology(rng, shape);
+        let mut peers = gen_topology(rng, shape);
+        share_addresses(rng, &mut peers);
         emit_topology(rng, &peers, 5, 6, emit);
     }
 }
